@@ -117,6 +117,33 @@ class SymEnv:
         return SNum(z3.If(zbool(c), zreal(a), zreal(b)))
     def fun(self, name, *args): return core.sx_fun(name, *args)
     def note(self, k, v): self.info[k] = v
+    def path(self, name): return "/sxfs/" + name
+
+    def real_path(self, name):
+        """a path in a real scratch directory (for code that goes through the real `open`)"""
+        import tempfile
+        if getattr(self, "_tmp", None) is None:
+            self._tmp = tempfile.mkdtemp(prefix="sxsym_")
+        return os.path.join(self._tmp, name)
+
+    def cleanup(self):
+        import shutil
+        if getattr(self, "_tmp", None):
+            shutil.rmtree(self._tmp, ignore_errors=True)
+            self._tmp = None
+
+    def file_view(self, path):
+        """(format, dtype name, (nx,ny,nz) header dims, getter(ix,iy,iz) of the element stored at x-fastest position)"""
+        from . import fs
+        r = fs.FSYS.files[path]
+        data = r.data
+        if type(data).__name__ == "LArray":
+            return r.fmt, r.dtype, r.dims, (lambda ix, iy, iz: data.at((iz, iy, ix)))
+        return r.fmt, r.dtype, r.dims, (lambda ix, iy, iz: data[iz][iy][ix])
+
+    def file_exists(self, path):
+        from . import fs
+        return path in fs.FSYS.files
 
 
 def _cmp(a, b, op):
@@ -220,6 +247,27 @@ class ConcEnv:
         return f(*[float(a) for a in args])
     def note(self, k, v): self.info[k] = v
 
+    def path(self, name):
+        import tempfile
+        if getattr(self, "_tmp", None) is None:
+            self._tmp = tempfile.mkdtemp(prefix="sxconc_")
+        return os.path.join(self._tmp, name)
+
+    real_path = path
+
+    def cleanup(self):
+        import shutil
+        if getattr(self, "_tmp", None):
+            shutil.rmtree(self._tmp, ignore_errors=True)
+            self._tmp = None
+
+    def file_view(self, path):
+        from . import fmt
+        return fmt.parse_file(path)
+
+    def file_exists(self, path):
+        return os.path.isfile(path)
+
 
 # ---------------------------------------------------------------------------------------------
 # running one path
@@ -264,6 +312,8 @@ def run_concrete(harness, params, model, tol=TOL):
         res["exception"] = "%s: %s" % (type(e).__name__, str(e)[:200])
         res["where"] = ["%s:%d" % (os.path.basename(f.filename), f.lineno) for f in tb][-4:]
         return res
+    finally:
+        env.cleanup()
     res["obligations"] = len(env.obligations)
     res["failed"] = [n for n, ok in env.obligations if not ok]
     res["info"] = env.info
@@ -391,6 +441,7 @@ def run_path(harness, params, prefix, opts):
         out["why"] = out["exception"]
     finally:
         Ctx.cur = None
+        env.cleanup()
     # children: flips of free decisions made beyond the prefix
     dec = ctx.decisions
     for i in range(len(prefix), len(dec)):
